@@ -74,7 +74,7 @@ func checkC02(w *Workload) *Outcome {
 		if o != nil {
 			return o
 		}
-		_, o = validateFile("C02", f.Root, file, w.Batches, w.PageSize, w.Codec)
+		_, o = validateFile("C02", f.Root, file, w.Batches, w.effPage(), w.Codec)
 		return o
 	})
 }
@@ -97,6 +97,11 @@ func TestC02(t *testing.T) {
 	cfg.bigPct = 3
 	rapid.Check(t, func(t *rapid.T) {
 		w := genWorkload(t, cfg)
+		if len(w.Batches) >= 2 && len(w.Batches) < 50 && rapid.IntRange(0, 3).Draw(t, "pendingAtClose") == 0 {
+			// the last batch is added but never written: it must not show up anywhere in the file
+			w.Pending = w.Batches[len(w.Batches)-1]
+			w.Batches = w.Batches[:len(w.Batches)-1]
+		}
 		o := checkC02(w)
 		record("C02", hashOf(w), w.nontrivial() || (len(w.Records) > 0 && (w.Fixture == "deep" || w.Fixture == "samename" || w.Fixture == "collide")), w.labels(), w.sample)
 		verdict(t, "C02", w, o)
